@@ -459,6 +459,83 @@ func runC14(c *Ctx) {
 		c.verdict(okv, c.nm(fn)+" | the tip heights are read from the target stores in this call", c.P.Pos(fn.Pos()), "both heights are results of ChainTip calls on the target stores made in this call, used unmerged", "the tip heights the regions are computed from are not (on every path) the results of ChainTip calls made in this call: a remembered value makes a repeated import write the same headers again", c.ats(calls)...)
 	})
 
+	c.rule("C14.G6", "a failed import leaves the filter store readable also when the block store is ahead: the filter-only catch-up of processBatch names the tip block only with the last batch of the region, so a region of several batches that fails or is cancelled in between leaves a filter store whose tip pointer does not resolve; today that path cannot be reached, because validateChainContinuity hands validateHeaderConnection the block store's own tip height as the height of the previous header, and with the two stores at different heights the file's next header never links to it. Either of the two must hold: the continuity check still refuses stores at different heights in that way, or every filter-only batch carries its tip block (setLastFilterHeaderHash precedes every write in that mode)", func() {
+		// (a) the guard
+		vc := c.fn("(*chainimport.headersImport).validateChainContinuity")
+		optB := c.field("chainimport", "ImportOptions", "TargetBlockHeaderStore")
+		isBlockTip := func(v ssa.Value) bool {
+			ex, ok := ir.Strip(v).(*ssa.Extract)
+			if !ok || ex.Index != 1 {
+				return false
+			}
+			call, ok := ex.Tuple.(*ssa.Call)
+			return ok && call.Call.IsInvoke() && call.Call.Method.Name() == "ChainTip" && loadsField(optB)(call.Call.Value)
+		}
+		conn := find(vc, callTo(c.method("chainimport", "headersImport", "validateHeaderConnection")))
+		guardHolds := len(conn) >= 1
+		for _, in := range conn {
+			_, a := recvAndArgs(in)
+			if len(a) < 2 || !isBlockTip(a[1]) {
+				guardHolds = false
+			}
+		}
+		// ... and the callee reads the previous header at exactly that height
+		if vh := c.P.Func("(*chainimport.headersImport).validateHeaderConnection"); vh != nil && guardHolds {
+			reads := 0
+			ir.Instrs(vh, func(in ssa.Instruction) {
+				cc := ir.CallOf(in)
+				if cc == nil || !cc.IsInvoke() || cc.Method.Name() != "FetchHeaderByHeight" || !loadsField(optB)(cc.Value) {
+					return
+				}
+				reads++
+				if len(vh.Params) < 3 || ir.Strip(cc.Args[0]) != ssa.Value(vh.Params[2]) {
+					guardHolds = false
+				}
+			})
+			if reads == 0 {
+				guardHolds = false
+			}
+		}
+		// (b) the path itself
+		pb := c.fn(fnProcB)
+		w := find(pb, callTo(c.method("chainimport", "headersImport", "writeHeadersToTargetStores")))
+		setLast := c.funcObj("chainimport", "setLastFilterHeaderHash")
+		var modeCmps []ssa.Instruction
+		ir.Instrs(pb, func(in ssa.Instruction) {
+			b, ok := in.(*ssa.BinOp)
+			if !ok || (b.Op != token.EQL && b.Op != token.NEQ) || !isParam(pb, len(pb.Params)-1)(b.X) {
+				return
+			}
+			if k, isC := ir.ConstInt(b.Y); isC && k == c.importConst("appendFilterOnly") {
+				modeCmps = append(modeCmps, in)
+			}
+		})
+		gm := equalIs("appendMode vs appendFilterOnly", modeCmps, true)
+		pathSafe := len(gm.sites) >= 1
+		// from the function entry, with the "not filter-only" edges removed: a
+		// write reachable without setLastFilterHeaderHash is an unnamed batch
+		cut := ir.Cut{}
+		for _, st := range gm.sites {
+			cut[st.br.Other()] = true
+		}
+		ir.Walk(pb.Blocks[0], 0, cut, func(in ssa.Instruction) bool {
+			if callTo(setLast)(in) {
+				return false
+			}
+			for _, x := range w {
+				if x == in {
+					pathSafe = false
+				}
+			}
+			return true
+		})
+		why := "the continuity check refuses stores at different heights (previous height = block store tip)"
+		if !guardHolds {
+			why = "every filter-only batch carries its tip block"
+		}
+		c.verdict(guardHolds || pathSafe, "chainimport | the multi-batch filter-only catch-up is unreachable or names its tip with every batch", c.P.Pos(vc.Pos()), why, "validateChainContinuity no longer refuses a block store that is ahead of the filter store, and the filter-only catch-up still names the tip block only with its last batch: an import that fails between batches leaves the filter store with a tip that does not resolve", c.ats(append(conn, w...))...)
+	})
+
 	c.rule("C14.V2", "the batch validators look at every header of the batch: blockHeadersImportSourceValidator.ValidateBatch visits indices 1..len-1 and validates each adjacent pair (headers[i-1], headers[i]); filterHeadersImportSourceValidator.ValidateBatch visits 0..len-1 with ValidateSingle; any early way out of either loop returns an error", func() {
 		for _, spec := range []struct {
 			fn, callee string
